@@ -117,6 +117,8 @@ def generate(prng, tier, index):
         if prng.random() < 0.4:
             sc["abort_line"] = prng.randrange(0, 60)
         sc["samples"] = max(2, sc["samples"])
+    if prng.random() < 0.15 and all(x < 2 ** 62 for k in keys for x in k):
+        sc["np_types"] = prng.choice(("N", "keys", "both"))      # N and / or the key components as numpy int64 scalars
     if sc["samples"] >= 2 and prng.random() < 0.4:
         # history on ONE loader: between two samples the distribution it holds is edited IN PLACE through the loader's own
         # attribute (a parameter sweep over weights, keys replaced) - the next sample must follow the edited distribution
@@ -141,8 +143,19 @@ def generate(prng, tier, index):
     return sc
 
 
+def n_arg(sc):
+    if sc.get("np_types") in ("N", "both"):
+        import numpy as np
+        return np.int64(sc["N"])
+    return sc["N"]
+
+
 def build(sc):
-    jdd = {tuple(k): w for k, w in zip(sc["keys"], sc["weights"])}
+    if sc.get("np_types") in ("keys", "both"):
+        import numpy as np
+        jdd = {tuple(np.int64(x) for x in k): w for k, w in zip(sc["keys"], sc["weights"])}
+    else:
+        jdd = {tuple(k): w for k, w in zip(sc["keys"], sc["weights"])}
     params = {JointDegreeNames.JDD: jdd, JointDegreeNames.MOTIF_SIZES: list(sc["sizes"])}
     if sc.get("via") == "dispatch":
         params[JointDegreeNames.JOINT_DEGREE_TYPE] = "manual"
@@ -266,9 +279,9 @@ def execute(sc, ctx):
                 ctx.probe("distribution_edited_in_place_between_samples")
         abort_at = sc.get("abort_at") if (r == 0 and sc["variant"] == "faults") else None
         if abort_at is not None and sc.get("abort_line") is not None:
-            st, res = ctx.call(src, obj.sample_jds_from_jdd, sc["N"], abort_at_line=sc["abort_line"], budget=20000, label="sample[interrupted at line]")
+            st, res = ctx.call(src, obj.sample_jds_from_jdd, n_arg(sc), abort_at_line=sc["abort_line"], budget=20000, label="sample[interrupted at line]")
         else:
-            st, res = ctx.call(src, obj.sample_jds_from_jdd, sc["N"], abort_at=abort_at, budget=20000, label="sample")
+            st, res = ctx.call(src, obj.sample_jds_from_jdd, n_arg(sc), abort_at=abort_at, budget=20000, label="sample")
         tag = " (sample after an aborted one on the same object)" if faulted else (" (repeated sample)" if r else "")
         if st == "abort":
             faulted = True
